@@ -1,5 +1,6 @@
 import CssVerif.Lemmas.Tok
 import CssVerif.Lemmas.TokLex
+import CssVerif.Lemmas.TokDet
 /-!
 # C05 — tokenizer: total, lossless, position-accurate, classifies by the grammar
 
@@ -345,5 +346,42 @@ example : (tokenize [97, 98, 32, 123, 32, 49, 50, 32, 125] false true).tokens.ma
 example : expected [Lex.pct 53 [48], .dim 49 [] 112 [120], .hash 102 [48, 48]] =
     [("PERCENTAGE", [53, 48, 37]), ("S", [32]), ("DIMENSION", [49, 112, 120]), ("S", [32]),
      ("HASH", [35, 102, 48, 48])] := by decide
+
+/-! ## the string productions are matched in one way only (fix ad43c3b)
+
+`strBody q` (Lemmas/TokDet.lean) is the repeated item `([^\n\r\f\\q]|\\{nl}|{strescape})*` of the generated STRING and
+INVALID productions (`string_productions_shape`). `Dec l` = `l` is strictly decreasing. -/
+
+/-- the generated STRING and INVALID productions are built from `strBody 34` (double quote) and `strBody 39` -/
+theorem string_productions_shape :
+    reSTRING = Re.alt (Re.seq (Re.cls false [(34, 34)]) (Re.seq (strBody 34) (Re.cls false [(34, 34)])))
+      (Re.seq (Re.cls false [(39, 39)]) (Re.seq (strBody 39) (Re.cls false [(39, 39)]))) ∧
+    reINVALID = Re.alt (Re.seq (Re.cls false [(34, 34)]) (strBody 34)) (Re.seq (Re.cls false [(39, 39)]) (strBody 39)) :=
+  ⟨reSTRING_shape, reINVALID_shape⟩
+
+/-- **the string body is deterministic**: for EVERY input the list of successes of the string body — all positions
+a backtracking matcher can reach, in its order of trial — is strictly decreasing: no position is reached by two
+different splits into items, so backtracking never revisits a position. -/
+theorem string_body_deterministic (s : Cps) : Dec ((strBody 34).ms s) ∧ Dec ((strBody 39).ms s) :=
+  ⟨strBody_dec 34 (by decide) s, strBody_dec 39 (by decide) s⟩
+
+/-- … hence no duplicate successes, and at most length + 1 of them (linear, not exponential) -/
+theorem string_body_linear (s : Cps) :
+    ((strBody 34).ms s).Nodup ∧ ((strBody 34).ms s).length ≤ s.length + 1 ∧
+    ((strBody 39).ms s).Nodup ∧ ((strBody 39).ms s).length ≤ s.length + 1 :=
+  ⟨dec_nodup _ (strBody_dec 34 (by decide) s),
+   dec_length _ _ (strBody_dec 34 (by decide) s) (fun x hx => Re.ms_bounded _ s x hx),
+   dec_nodup _ (strBody_dec 39 (by decide) s),
+   dec_length _ _ (strBody_dec 39 (by decide) s) (fun x hx => Re.ms_bounded _ s x hx)⟩
+
+/-- for the table before the fix the statement is false: on `\41` the position 3 is reached twice (`\41`, and `\4`
+followed by the ordinary character `1`); on `\\414141` the old body has 22 successes for 7 code points (the new one 7),
+on six times `\\41` it has 190 (the new one 13) -/
+example : ¬ ((oldStrBody 34).ms [92, 52, 49]).Nodup := by decide
+example : ((oldStrBody 34).ms [92, 52, 49, 52, 49, 52, 49]).length = 22 ∧
+    ((strBody 34).ms [92, 52, 49, 52, 49, 52, 49]).length = 7 := by decide +kernel
+example : ((oldStrBody 34).ms [92, 52, 49, 92, 52, 49, 92, 52, 49, 92, 52, 49, 92, 52, 49, 92, 52, 49]).length = 190 ∧
+    ((strBody 34).ms [92, 52, 49, 92, 52, 49, 92, 52, 49, 92, 52, 49, 92, 52, 49, 92, 52, 49]).length = 13 := by
+  decide +kernel
 
 end CssVerif.C05
